@@ -53,7 +53,7 @@ pub struct AmbiguousDiffMinusCounter(isize);
 
 impl AmbiguousDiffMinusCounter {
     // The internal isize representation avoids calling `if let Some(..)` on every line. For
-    // nearly all input the counter is not needed, in this case it is decremented but ignored.
+    // nearly all input the counter is not needed, in this case it stays at the threshold.
     // [min, COUNTER_RELEVANT_IF_GT]   unambiguous diff
     // (COUNTER_RELEVANT_IF_GT, 0]     handle next '--- ' like a header, and set counter in next @@ block
     // [1, max]                        counting minus lines in ambiguous header
@@ -74,7 +74,11 @@ impl AmbiguousDiffMinusCounter {
         }
     }
     pub fn count_line(&mut self) {
-        self.0 -= 1;
+        // Stop just above the threshold: however many lines follow a hunk, "counting" must
+        // not turn into "not needed", which would disable the check for all later hunks.
+        if self.0 > Self::COUNTER_RELEVANT_IF_GREATER_THAN + 1 {
+            self.0 -= 1;
+        }
     }
     fn count_from(lines: usize) -> Self {
         Self(
